@@ -54,7 +54,16 @@ fn main() {
                 std::process::exit(2);
             });
             let ctx = Ctx { tier, seed, start: std::time::Instant::now(), budget_s };
-            let code = checks::run(&id, &ctx);
+            // a panic of the harness itself (a world builder whose happy path fails, a decoder meeting bytes it cannot read) is a
+            // machinery failure, never a verdict
+            let code = match std::panic::catch_unwind(std::panic::AssertUnwindSafe(|| checks::run(&id, &ctx))) {
+                Ok(c) => c,
+                Err(e) => {
+                    let m = e.downcast_ref::<String>().cloned().or_else(|| e.downcast_ref::<&str>().map(|x| x.to_string())).unwrap_or_default();
+                    eprintln!("MACHINERY ERROR: the harness panicked while running {id}: {}", m.chars().take(600).collect::<String>());
+                    2
+                }
+            };
             std::process::exit(code);
         }
         "replay" => {
